@@ -29,6 +29,9 @@
 #include "timer.h"
 #include "util.h"
 #include "xfloat.h"
+#ifdef ALDOR_VERIF
+#include "verifhook.h"
+#endif
 
 
 
@@ -1678,6 +1681,108 @@ fintStmt(DataObj retDataObj)
 	goto readEvalLoop;
 	return -1;
 }
+
+#ifdef ALDOR_VERIF
+/* H4: one ndjson BCall event per builtin application evaluated by the
+ * interpreter (operands and result).  Wide values are decimal strings. */
+local int
+verifBCallType(int t, int op)
+{
+	switch (t) {
+	case FOAM_Bool: case FOAM_Char: case FOAM_Byte: case FOAM_HInt:
+	case FOAM_SInt: case FOAM_Word: case FOAM_BInt:
+	case FOAM_SFlo: case FOAM_DFlo:
+		return 1;
+	case FOAM_Arr:
+		return op == FOAM_BVal_ArrToSInt || op == FOAM_BVal_ArrToBInt ||
+		       op == FOAM_BVal_ArrToSFlo || op == FOAM_BVal_ArrToDFlo;
+	default:
+		return 0;
+	}
+}
+
+local void
+verifBCallVal(FILE *f, int t, DataObj v)
+{
+	int	i;
+	String	s;
+	UByte	*pb;
+	switch (t) {
+	case FOAM_Bool: fprintf(f, "{\"b\":%ld}", (long) v->fiBool); break;
+	case FOAM_Char: fprintf(f, "{\"c\":%d}", (int) v->fiChar); break;
+	case FOAM_Byte: fprintf(f, "{\"w\":\"%d\"}", (int) v->fiByte); break;
+	case FOAM_HInt: fprintf(f, "{\"w\":\"%d\"}", (int) v->fiHInt); break;
+	case FOAM_SInt: fprintf(f, "{\"w\":\"%ld\"}", (long) v->fiSInt); break;
+	case FOAM_Word: fprintf(f, "{\"u\":\"%lu\"}", (unsigned long) v->fiWord); break;
+	case FOAM_BInt:
+		s = bintToString((BInt) v->fiBInt);
+		fprintf(f, "{\"z\":\"%s\"}", s);
+		strFree(s);
+		break;
+	case FOAM_SFlo:
+		pb = (UByte *) &v->fiSFlo;
+		fprintf(f, "{\"f\":\"");
+		for (i = 0; i < (int) sizeof(FiSFlo); i++) fprintf(f, "%02x", pb[i]);
+		fprintf(f, "\"}");
+		break;
+	case FOAM_DFlo:
+		pb = (UByte *) &v->fiDFlo;
+		fprintf(f, "{\"f\":\"");
+		for (i = 0; i < (int) sizeof(FiDFlo); i++) fprintf(f, "%02x", pb[i]);
+		fprintf(f, "\"}");
+		break;
+	case FOAM_Arr:
+		fprintf(f, "{\"s\":[");
+		for (s = (String) v->fiArr, i = 0; s && s[i]; i++)
+			fprintf(f, "%s%d", i ? "," : "", (int) (UByte) s[i]);
+		fprintf(f, "]}");
+		break;
+	default:
+		fprintf(f, "null");
+		break;
+	}
+}
+
+local void
+verifBCallFint(int call, DataObj *argv, DataObj ret)
+{
+	static int	on = -1;
+	FILE		*f;
+	int		i, argc, retc;
+	struct foamBVal_info *info = &foamBValInfo(call);
+
+	if (on < 0) {
+		const char *p = getenv("ALDOR_VERIF_BCALL");
+		on = VERIF_TRACING() && (!p || strstr(p, "fint") != 0);
+	}
+	if (!on) return;
+	argc = info->argCount;
+	retc = info->retType == FOAM_NOp ? info->retCount : 1;
+	if (argc > 4 || info->hasSideFx) return;
+	for (i = 0; i < argc; i++)
+		if (!verifBCallType(info->argTypes[i], call)) return;
+	for (i = 0; i < retc; i++)
+		if (!verifBCallType(info->retType == FOAM_NOp ?
+				    info->retTypes[i] : info->retType, call))
+			return;
+	f = verifTraceFile_();
+	fprintf(f, "{\"ev\":\"BCall\",\"who\":\"fint\",\"op\":\"%s\",\"args\":[", info->str);
+	for (i = 0; i < argc; i++) {
+		if (i) fputc(',', f);
+		verifBCallVal(f, info->argTypes[i], argv[i]);
+	}
+	fprintf(f, "],\"res\":[");
+	for (i = 0; i < retc; i++) {
+		if (i) fputc(',', f);
+		if (info->retType == FOAM_NOp)
+			verifBCallVal(f, info->retTypes[i], &ret->ptr[i]);
+		else
+			verifBCallVal(f, info->retType, ret);
+	}
+	fprintf(f, "]}\n");
+	fflush(f);
+}
+#endif
 
 local dataType
 fintEvalBCall(DataObj retDataObj)
@@ -3540,6 +3645,14 @@ fintEvalBCall(DataObj retDataObj)
 		NotReached(myType = FOAM_Nil);
 	}
 
+#ifdef ALDOR_VERIF
+	{
+		DataObj verifArgv[4];
+		verifArgv[0] = &expr1; verifArgv[1] = &expr2;
+		verifArgv[2] = &expr3; verifArgv[3] = &expr4;
+		verifBCallFint(call, verifArgv, retDataObj);
+	}
+#endif
 	return myType;
 
       /**************************** END OF BCALL ***************************/
